@@ -182,7 +182,7 @@ def Res.isEqual : Res → Res → Bool
     metaEqAnn a.md b.md && decide (a.validHosts = b.validHosts) && (a.isMaster == b.isMaster) &&
       listAll2 (fun x y => metaEqAnn x.md y.md) a.minions b.minions
   | .vs a, .vs b => metaEq a.md b.md && listAll2 metaEq a.vsrs b.vsrs
-  | .ts a, .ts b => metaEq a.md b.md && a.port = b.port
+  | .ts a, .ts b => metaEq a.md b.md && a.port = b.port && a.v4 = b.v4 && a.v6 = b.v6
   | _, _ => false
 
 /-! ### changes and problems -/
@@ -462,20 +462,25 @@ def buildHosts (s : Objs) : Build :=
 
 /-! ### diffing -/
 
+/-- How many times `detectChangesInHosts` appends a host that exists in both tables to `updatedHosts`. -/
+def updatedTimes (o n : Res) : Nat :=
+  if !(o.isEqual n) then 1 else
+  match o, n with
+  | .vs a, .vs n =>
+    (if n.httpPort ≠ a.httpPort || n.httpsPort ≠ a.httpsPort then 1 else 0) +
+    (if n.httpV4 ≠ a.httpV4 then 1 else 0) + (if n.httpV6 ≠ a.httpV6 then 1 else 0) +
+    (if n.httpsV4 ≠ a.httpsV4 then 1 else 0) + (if n.httpsV6 ≠ a.httpsV6 then 1 else 0)
+  | _, _ => 0
+
+def updStep (old : Map Res) (acc : List String) (kv : String × Res) : List String :=
+  match old.get? kv.1 with
+  | none => acc
+  | some o => acc ++ List.replicate (updatedTimes o kv.2) kv.1
+
 def detectHostChanges (old new : Map Res) : List String × List String × List String :=
   let removed := (old.filter (fun kv => !(Map.contains new kv.1))).map (·.1)
   let added := (new.filter (fun kv => !(Map.contains old kv.1))).map (·.1)
-  let updated := new.foldl (fun (acc : List String) (kv : String × Res) =>
-    match old.get? kv.1 with
-    | none => acc
-    | some o =>
-      if !(o.isEqual kv.2) then acc ++ [kv.1] else
-      match o, kv.2 with
-      | .vs a, .vs n =>
-        let acc := if n.httpPort ≠ a.httpPort || n.httpsPort ≠ a.httpsPort then acc ++ [kv.1] else acc
-        let acc := if n.httpV4 ≠ a.httpV4 then acc ++ [kv.1] else acc
-        if n.httpV6 ≠ a.httpV6 then acc ++ [kv.1] else acc
-      | _, _ => acc) []
+  let updated := new.foldl (updStep old) []
   (removed, updated, added)
 
 def changesFor (removed updated added : List String) (old new : Map Res) : List Change :=
@@ -504,73 +509,84 @@ def detectProblemChanges (new old : Map Problem) : List Problem :=
 
 /-! ### rebuildHosts -/
 
+def noActiveStep (hosts : Map (String × Meta)) (m : Map Problem) (kv : String × Res) : Map Problem :=
+  match kv.2 with
+  | .ing c =>
+    if c.validHosts.any (·.2) then m else m.set kv.1 ⟨kv.1, false, "Rejected", "all-hosts-taken"⟩
+  | .vs c => if (hosts.get? c.host).map (·.1) ≠ some kv.1 then m.set kv.1 ⟨kv.1, false, "Rejected", "host-taken"⟩ else m
+  | .ts c => if (hosts.get? c.host).map (·.1) ≠ some kv.1 then m.set kv.1 ⟨kv.1, false, "Rejected", "host-taken"⟩ else m
+
 def noActiveHostProblems (hosts : Map (String × Meta)) (res : Map Res) : Map Problem :=
-  res.foldl (fun (m : Map Problem) (kv : String × Res) =>
-    match kv.2 with
-    | .ing c =>
-      if c.validHosts.any (·.2) then m else
-        m.set kv.1 ⟨kv.1, false, "Rejected", "all-hosts-taken"⟩
-    | .vs c => if (hosts.get? c.host).map (·.1) ≠ some kv.1 then m.set kv.1 ⟨kv.1, false, "Rejected", "host-taken"⟩ else m
-    | .ts c => if (hosts.get? c.host).map (·.1) ≠ some kv.1 then m.set kv.1 ⟨kv.1, false, "Rejected", "host-taken"⟩ else m) []
+  res.foldl (noActiveStep hosts) []
+
+def orphanStep (hosts : Map (String × Meta)) (res : Map Res) (m : Map Problem) (kv : String × Ing) : Map Problem :=
+  let i := kv.2
+  if !isMinion i then m else
+  let ok := match ((hosts.get? (ingH0 i)).map (·.1)).bind res.get? with
+    | some (.ing c) => c.isMaster
+    | _ => false
+  if ok then m else
+    m.set ("Ingress/" ++ i.md.key) ⟨"Ingress/" ++ i.md.key, false, "NoIngressMasterFound", "no-master"⟩
 
 def orphanMinionProblems (s : Objs) (hosts : Map (String × Meta)) (res : Map Res) (m : Map Problem) : Map Problem :=
-  s.ings.foldl (fun (m : Map Problem) (kv : String × Ing) =>
-    let i := kv.2
-    if !isMinion i then m else
-    let h0 := (i.rules.head?.map (·.1)).getD ""
-    let ok := match ((hosts.get? h0).map (·.1)).bind res.get? with
-      | some (.ing c) => c.isMaster
-      | _ => false
-    if ok then m else
-      let k := "Ingress/" ++ i.md.key
-      m.set k ⟨k, false, "NoIngressMasterFound", "no-master"⟩) m
+  s.ings.foldl (orphanStep hosts res) m
+
+def vsrProbStep (hosts : Map (String × Meta)) (res : Map Res) (m : Map Problem) (kv : String × VSR) : Map Problem :=
+  let r := kv.2
+  let k := "VirtualServerRoute/" ++ r.md.key
+  match ((hosts.get? r.host).map (·.1)).bind res.get? with
+  | some (.vs c) =>
+    if c.vsrs.any (fun v => v.ns = r.md.ns && v.name = r.md.name) then m
+    else m.set k ⟨k, false, "Ignored", "ignored-by:" ++ c.md.key⟩
+  | _ => m.set k ⟨k, false, "NoVirtualServerFound", "no-vs"⟩
 
 def vsrProblems (s : Objs) (hosts : Map (String × Meta)) (res : Map Res) (m : Map Problem) : Map Problem :=
-  s.vsrs.foldl (fun (m : Map Problem) (kv : String × VSR) =>
-    let r := kv.2
-    let k := "VirtualServerRoute/" ++ r.md.key
-    match ((hosts.get? r.host).map (·.1)).bind res.get? with
-    | some (.vs c) =>
-      if c.vsrs.any (fun v => v.ns = r.md.ns && v.name = r.md.name) then m
-      else m.set k ⟨k, false, "Ignored", "ignored-by:" ++ c.md.key⟩
-    | _ => m.set k ⟨k, false, "NoVirtualServerFound", "no-vs"⟩) m
+  s.vsrs.foldl (vsrProbStep hosts res) m
 
 /-- `addWarningsForVirtualServersWithMissConfiguredListeners`: the warning goes
 to whoever *holds the host*, which need not be the VirtualServer itself. -/
-def listenerWarnings (s : Objs) (b : Build) : Build :=
-  let lm := listenerMap s.gc
-  b.res.foldl (fun (b : Build) (kv : String × Res) =>
-    match kv.2 with
-    | .vs c =>
-      match c.listener with
+def inBlock (lm : Map Listener) (n : String) (ssl : Bool) : Bool :=
+  match lm.get? n with | some l => !(l.ssl ≠ ssl) | none => true
+
+/-- The warning (if any) for a VirtualServer's `listener` block. -/
+def listenerWarningFor (gc : Option (List Listener)) (h sname : String) : Option String :=
+  let lm := listenerMap gc
+  if gc.isNone then some "listeners-no-gc" else
+  if !(inBlock lm h false) then some ("listener-http-ssl:" ++ h) else
+  if !(inBlock lm sname true) then some ("listener-https-nossl:" ++ sname) else
+  if h ≠ "" && !(lm.contains h) then some ("listener-undefined:" ++ h) else
+  if sname ≠ "" && !(lm.contains sname) then some ("listener-undefined:" ++ sname) else none
+
+def lwStep (gc : Option (List Listener)) (b : Build) (kv : String × Res) : Build :=
+  match kv.2 with
+  | .vs c =>
+    match c.listener with
+    | none => b
+    | some (h, sname) =>
+      match listenerWarningFor gc h sname with
+      | some w => b.addWarning ((b.holderKey c.host).getD "") w
       | none => b
-      | some (h, sname) =>
-        let tgt := (b.holderKey c.host).getD ""
-        if s.gc.isNone then b.addWarning tgt "listeners-no-gc" else
-        let inBlock := fun (n : String) (ssl : Bool) =>
-          match lm.get? n with | some l => !(l.ssl ≠ ssl) | none => true
-        if !(inBlock h false) then b.addWarning tgt ("listener-http-ssl:" ++ h) else
-        if !(inBlock sname true) then b.addWarning tgt ("listener-https-nossl:" ++ sname) else
-        if h ≠ "" && !(lm.contains h) then b.addWarning tgt ("listener-undefined:" ++ h) else
-        if sname ≠ "" && !(lm.contains sname) then b.addWarning tgt ("listener-undefined:" ++ sname) else b
-    | _ => b) b
+  | _ => b
+
+def listenerWarnings (s : Objs) (b : Build) : Build := b.res.foldl (lwStep s.gc) b
 
 def resolveHosts (b : Build) : Map Res :=
   b.hosts.filterMap fun (h, k) => (b.res.get? k.1).map (fun r => (h, r))
 
 def rebuildHosts (s : State) : State × List Change × List Problem :=
-  let b0 := buildHosts s.toObjs
-  -- diff on the snapshots as they are at this point; later warnings are visible through the pointers
-  let new0 := resolveHosts b0
-  let (rm, up, ad) := detectHostChanges s.hosts new0
-  let cs := squash (changesFor rm up ad s.hosts new0)
-  let b := listenerWarnings s.toObjs b0
+  -- The Go code diffs the old table against the new one before the listener warnings are appended and
+  -- lets the changes see them later through the shared pointers; `IsEqual` and the extra port/address
+  -- comparisons never read warnings, so diffing the final snapshots is the same computation.
+  let b := listenerWarnings s.toObjs (buildHosts s.toObjs)
+  let new := resolveHosts b
+  let d := detectHostChanges s.hosts new
+  let cs := squash (changesFor d.1 d.2.1 d.2.2 s.hosts new)
   let cs := cs.map fun c => match b.res.get? c.res.key with
     | some r => { c with res := r }
     | none => c
   let probs := vsrProblems s.toObjs b.hosts b.res (orphanMinionProblems s.toObjs b.hosts b.res (noActiveHostProblems b.hosts b.res))
   let delta := detectProblemChanges probs s.hostProblems
-  ({ s with hosts := resolveHosts b, hostProblems := probs }, cs, delta)
+  ({ s with hosts := new, hostProblems := probs }, cs, delta)
 
 /-! ### rebuildListenerHosts -/
 
@@ -622,7 +638,7 @@ def buildListenerHosts (s : Objs) (order : List (String × TS)) : LBuild := orde
 def resolveLHosts (b : LBuild) : Map TSCfg :=
   b.lhosts.filterMap fun (lk, k) => (b.cfgs.get? k.1).map (fun c => (lk, c))
 
-def tsIsEqual (a b : TSCfg) : Bool := metaEq a.md b.md && a.port = b.port
+def tsIsEqual (a b : TSCfg) : Bool := metaEq a.md b.md && a.port = b.port && a.v4 = b.v4 && a.v6 = b.v6
 
 def listenerProblemsOf (b : LBuild) : Map Problem :=
   let lh := resolveLHosts b
@@ -676,17 +692,21 @@ def attachError (kk : String) (cs : List Change) (ps : List Problem) : List Chan
     (go cs, ps)
   else (cs, ps ++ [⟨kk, true, "Rejected", "validation-error"⟩])
 
+/-- `deletesFirst`: stable partition of a concatenated batch, Delete changes first. -/
+def deletesFirst (cs : List Change) : List Change :=
+  cs.filter (·.op = .delete) ++ cs.filter (·.op = .update)
+
 def tsBoth (s : State) (order : List (String × TS)) : State × List Change × List Problem :=
-  let (s, cs, ps) := rebuildListenerHosts s order
+  let r1 := rebuildListenerHosts s order
   if s.cfg.passthrough then
-    let (s, cs2, ps2) := rebuildHosts s
-    (s, cs ++ cs2, ps ++ ps2)
-  else (s, cs, ps)
+    let r2 := rebuildHosts r1.1
+    (r2.1, deletesFirst (r1.2.1 ++ r2.2.1), r1.2.2 ++ r2.2.2)
+  else r1
 
 def gcBoth (s : State) (order : List (String × TS)) : State × List Change × List Problem :=
-  let (s, cs, ps) := rebuildListenerHosts s order
-  let (s, cs2, ps2) := rebuildHosts s
-  (s, cs ++ cs2, ps ++ ps2)
+  let r1 := rebuildListenerHosts s order
+  let r2 := rebuildHosts r1.1
+  (r2.1, deletesFirst (r1.2.1 ++ r2.2.1), r1.2.2 ++ r2.2.2)
 
 /-- One public operation of `Configuration`. `perm` reorders the TransportServer
 map for the unsorted range (identity = sorted order). -/
@@ -694,31 +714,28 @@ def step (perm : List (String × TS) → List (String × TS)) (s : State) (op : 
   match op with
   | .ing i cls valid =>
     let k := i.md.key
-    let s := if cls && valid then { s with ings := s.ings.set k i } else { s with ings := s.ings.erase k }
-    let (s, cs, ps) := rebuildHosts s
+    let r := rebuildHosts (if cls && valid then { s with ings := s.ings.set k i } else { s with ings := s.ings.erase k })
     if cls && !valid then
-      let (cs, ps) := attachError ("Ingress/" ++ k) cs ps; (s, cs, ps)
-    else (s, cs, ps)
+      let e := attachError ("Ingress/" ++ k) r.2.1 r.2.2; (r.1, e.1, e.2)
+    else r
   | .vs v cls valid =>
     let k := v.md.key
-    let s := if cls && valid then { s with vss := s.vss.set k v } else { s with vss := s.vss.erase k }
-    let (s, cs, ps) := rebuildHosts s
+    let r := rebuildHosts (if cls && valid then { s with vss := s.vss.set k v } else { s with vss := s.vss.erase k })
     if cls && !valid then
-      let (cs, ps) := attachError ("VirtualServer/" ++ k) cs ps; (s, cs, ps)
-    else (s, cs, ps)
-  | .vsr r cls valid =>
-    let k := r.md.key
-    let s := if cls && valid then { s with vsrs := s.vsrs.set k r } else { s with vsrs := s.vsrs.erase k }
-    let (s, cs, ps) := rebuildHosts s
-    if cls && !valid then (s, cs, ps ++ [⟨"VirtualServerRoute/" ++ k, true, "Rejected", "validation-error"⟩])
-    else (s, cs, ps)
+      let e := attachError ("VirtualServer/" ++ k) r.2.1 r.2.2; (r.1, e.1, e.2)
+    else r
+  | .vsr x cls valid =>
+    let k := x.md.key
+    let r := rebuildHosts (if cls && valid then { s with vsrs := s.vsrs.set k x } else { s with vsrs := s.vsrs.erase k })
+    if cls && !valid then (r.1, r.2.1, r.2.2 ++ [⟨"VirtualServerRoute/" ++ k, true, "Rejected", "validation-error"⟩])
+    else r
   | .ts t cls valid =>
     let k := t.md.key
-    let s := if cls && valid then { s with tss := s.tss.set k t } else { s with tss := s.tss.erase k }
-    let (s, cs, ps) := tsBoth s (perm s.tss)
+    let m := if cls && valid then s.tss.set k t else s.tss.erase k
+    let r := tsBoth { s with tss := m } (perm m)
     if cls && !valid then
-      let (cs, ps) := attachError ("TransportServer/" ++ k) cs ps; (s, cs, ps)
-    else (s, cs, ps)
+      let e := attachError ("TransportServer/" ++ k) r.2.1 r.2.2; (r.1, e.1, e.2)
+    else r
   | .gc ls => gcBoth { s with gc := some ls } (perm s.tss)
   | .delIng k => if s.ings.contains k then rebuildHosts { s with ings := s.ings.erase k } else (s, [], [])
   | .delVs k => if s.vss.contains k then rebuildHosts { s with vss := s.vss.erase k } else (s, [], [])
